@@ -54,6 +54,11 @@ func famRedef(r *rng) []string {
 	if r.intn(2) == 0 { // and back to the first definition
 		res = append(res, defG(c1), "println("+call+")")
 	}
+	if r.intn(4) == 0 { // a function drawing into an image (extension state) twice with the same arguments
+		res = append(res, `image.new("a", 8, 8)`,
+			`tri = func(x, c){ image.move_to("a", x, 1.); image.line_to("a", x + 4., 1.); image.line_to("a", x, 5.); image.close_path("a"); image.draw("a", c) }`,
+			`tri(1., [255, 0, 0])`, `p1 = image.png("a")`, `image.new("a", 8, 8)`, `tri(1., [255, 0, 0])`, `println(p1 == image.png("a"))`)
+	}
 	res = append(res, call)
 	return res
 }
